@@ -69,8 +69,9 @@ class Builder:
             self.emit('            crate::vx_canary(%d) ==> false,' % len(self.canary_lines))
         if decreases:
             self.emit('        decreases %s' % decreases)
-    def verified_fn(self, f, name, within=None, requires=(), clauses=(), decreases=None, props=(), loops=None, blocks=None, extra_rules=(), fname=None):
+    def verified_fn(self, f, name, within=None, requires=(), clauses=(), decreases=None, props=(), loops=None, blocks=None, extra_rules=(), fname=None, desugar_continue=False):
         t, where = self._prep_fn(f, name, within, extra_rules)
+        if desugar_continue: t = D.desugar_continue(t, self.log, where)
         sig, body = self._split_sig(t)
         sig = self._name_ret(sig)
         fname = fname or name
@@ -87,7 +88,7 @@ class Builder:
                 lab = mm.group(1)
                 self.linemap[bstart + off] = (fname, lab, getattr(self, '_inv_labels', {}).get(lab, list(props)))
                 self.obligations.append((lab, getattr(self, '_inv_labels', {}).get(lab, list(props))))
-        self.fn_ranges.append((first, self.lineno() - 1, fname, list(props)))
+        self.fn_ranges.append((first, self.lineno() - 1, fname, list(props), fname + '.safety'))
         self.obligations.append((fname + '.safety', list(props)))
     def assumed_fn(self, f, name, within=None, requires=(), ensures=(), why=''):
         t, where = self._prep_fn(f, name, within)
@@ -176,8 +177,14 @@ class Builder:
         self.emit(body)
         if epilogue: self.emit(epilogue)
         self.emit('}')
-        self.fn_ranges.append((first, self.lineno() - 1, fname, list(props)))
+        self.fn_ranges.append((first, self.lineno() - 1, fname, list(props), fname + '.safety'))
         self.obligations.append((fname + '.safety', list(props)))
+    def lemma(self, label, props, text):
+        """spec/proof text written by the unit (not extracted): one proof obligation `label`; any verifier error inside maps to it."""
+        first = self.lineno()
+        self.emit(text)
+        self.fn_ranges.append((first, self.lineno() - 1, label, list(props), label))
+        self.obligations.append((label, list(props)))
     def text(self):
         t = '\n'.join(self.lines) + '\n'
         if self.canary:
